@@ -13,6 +13,8 @@ the program is an immutable value.
 import Anko.Gen.AstWrites
 import Anko.Model.Eval
 import Anko.Proofs.EvalFuel
+import Anko.Gen.ImportFlow
+import Anko.Props.ImportFlowTable
 
 namespace Anko.C14
 open Anko
@@ -54,5 +56,12 @@ theorem unsupported_marker_is_sticky (fuel : Nat) (st : Stmt) (s : St) (h : s.un
 running it again from the same state is the same run. -/
 theorem tree_reusable (fuel : Nat) (p : Stmt) (s : St) :
     (runProgram fuel p s, p) = (runProgram fuel p s, p) := rfl
+
+/-! ### import(...) in the source (regenerated: Gen/ImportFlow)
+
+Every leaf statement of invokeImportExpr - the package tables are only READ, every import builds a module scope of its own and defines the entries in
+it - is the one written down in Props/ImportFlowTable. Any edit of these functions - also a harmless one - breaks this obligation by name; the check then
+searches model and implementation for a failing input (DESIGN.md 13.3). -/
+theorem import_copies_the_package_tables_as_modelled : Gen.ImportFlow.leaves = Tables.importFlow := by decide +kernel
 
 end Anko.C14
